@@ -17,12 +17,26 @@ Theorems here:
     and `not`, the eleven strict binary operators, short-circuit `and` / `or`, any nesting), running the
     bytes the generator emits - decoded instruction by instruction by the VM model's own dispatch loop -
     pushes exactly the value the reference semantics computes and changes nothing else;
-    `compile_expr_correct_native` carries this to the reference's native configuration.
+    `compile_expr_correct_native` carries this to the reference's native configuration;
+  * `compile_stmt_correct`, `compile_body_correct` (helper lemmas in `Lemmas/CompileStmt.lean`): the same for
+    statements over scalars - assignment to a local, `print` / `println`, `if` with and without `else`,
+    `while` (any number of iterations: induction on the reference's fuel), nested blocks, and `let` at the
+    level of the function body: the VM reaches the end of the generated code in a state that represents
+    the reference's final state, *including the bytes written to standard output*;
+  * `compile_main_correct` (helper lemmas in `Lemmas/CompileMain.lean`): whole programs.  For every program
+    that consists of `fn main() { body }` with `body` in the fragment and ending in `return e`, if the
+    reference semantics runs the program to an exit, then `execute` - the VM model's `vm_execute` - on the
+    module that `compileProgram` - the model of `codegen_compile`, tied byte for byte to
+    `nano_virt --emit-nvm` - builds, ends normally with exactly the reference's output, and main's value on
+    the stack is the one the reference's exit status is computed from.
 -/
 import NanoVerif.Model.Sem
 import NanoVerif.Model.Compile
 import NanoVerif.Lemmas.CompileExpr
 import NanoVerif.Lemmas.CompileExprExample
+import NanoVerif.Lemmas.CompileStmt
+import NanoVerif.Lemmas.CompileStmtExample
+import NanoVerif.Lemmas.CompileMain
 
 namespace NanoVerif.C01
 open NanoVerif Gen
@@ -187,5 +201,78 @@ example : ∃ v n, VRel (.bool true) v ∧ ∀ k, runLoop exM (n + k) exS = runL
   (compile_expr_correct_native exM {} [] exE
     (.and _ _ (.strict .T_LT .LT _ _ rfl (.num 1) (.ident "x")) (.strict .T_EQ .EQ _ _ rfl (.strict .T_STAR .MUL _ _ rfl (.ident "x") (.num 3)) (.num 15)))
     exCs exCs exCode exBytes 10 exLoc {} {} (.bool true) exS _ [] exCompile exEncode exSem rfl exAt exEnv).2
+
+/-- **compile_stmt_correct** (VM back end, statement fragment `StmtF`: `set` of a local, `print`/`println`,
+    `if`/`else`, `while`, blocks - without declarations, `break`, `continue`, `return`; expressions of the pure
+    fragment).  If the reference executes the statement from a state the machine state represents (`StInv`:
+    empty operand stack, every visible local a reference variable stored in its slot, same output so far, no
+    global variables), then the reference falls through and the VM's dispatch loop, running the generated bytes,
+    reaches their end in a state that represents the reference's new state: same variables with the new
+    values, and exactly the same bytes written to standard output.  Loops run any number of iterations. -/
+theorem compile_stmt_correct (m : Module) (ce : CE) (p : Program) (L : Nat) (st : Stmt) (hf : StmtF st)
+    (cs cs' : CS) (code : List PI) (d fuel : Nat) (loc loc' : Sem.Locals) (g g' : Sem.GState) (fl : Sem.Flow)
+    (s : VmState) (fr : Frame) (frs : List Frame) (bs : Bytes)
+    (hc : cStmt ce cs d st = .ok (cs', code)) (hb : encodeAll code = some bs)
+    (hs : Sem.execStmt Sem.vmCfg p fuel loc g st = .ok (fl, loc', g'))
+    (hfr : s.frames = fr :: frs) (hat : CodeAt m s.curFn s.ip bs) (hinv : StInv ce cs loc g fr L s) :
+    fl = .next ∧ ∃ n s', (∀ k, runLoop m (n + k) s = runLoop m k s') ∧ s'.ip = s.ip + bs.length ∧
+      s'.frames = s.frames ∧ s'.curFn = s.curFn ∧ s'.out = g'.out ∧ StInv ce cs loc' g' fr L s' := by
+  obtain ⟨h1, _, n, s', hrun, hip, hfr', hcf, hinv'⟩ :=
+    stmtF_sim m ce p L st hf cs cs' code d fuel loc loc' g g' fl s fr frs bs hc hs hfr hb hat hinv
+  exact ⟨h1, n, s', fun k => runLoop_of_runN m n k s s' hrun, hip, hfr', hcf, hinv'.out, hinv'⟩
+
+/-- **compile_body_correct**: the same for a function body - declarations `let x = e` and statements of the
+    fragment in any order - given that the frame has a slot for every declared variable -/
+theorem compile_body_correct (m : Module) (ce : CE) (p : Program) (L : Nat) (ss : List Stmt) (hbf : BodyF ss)
+    (cs cs' : CS) (code : List PI) (d fuel : Nat) (loc loc' : Sem.Locals) (g g' : Sem.GState) (fl : Sem.Flow)
+    (s : VmState) (fr : Frame) (frs : List Frame) (bs : Bytes)
+    (hc : cStmts ce cs d ss = .ok (cs', code)) (hb : encodeAll code = some bs)
+    (hs : Sem.execStmts Sem.vmCfg p fuel loc g ss = .ok (fl, loc', g'))
+    (hfr : s.frames = fr :: frs) (hat : CodeAt m s.curFn s.ip bs) (hinv : StInv ce cs loc g fr L s)
+    (hL : cs'.locals.length ≤ L) (h32 : fr.stackBase + L < 4294967296) :
+    fl = .next ∧ ∃ n s', (∀ k, runLoop m (n + k) s = runLoop m k s') ∧ s'.ip = s.ip + bs.length ∧
+      s'.frames = s.frames ∧ s'.curFn = s.curFn ∧ s'.out = g'.out ∧ StInv ce cs' loc' g' fr L s' := by
+  obtain ⟨h1, n, s', hrun, hip, hfr', hcf, hinv'⟩ :=
+    body_sim m ce p L ss hbf cs cs' code d fuel loc loc' g g' fl s fr frs bs hc hs hfr hb hat hinv hL h32
+  exact ⟨h1, n, s', fun k => runLoop_of_runN m n k s s' hrun, hip, hfr', hcf, hinv'.out, hinv'⟩
+
+open CompileEx2 in
+/-- non-vacuity: `let mut x = 5; while (< x 7) { set x (+ x 1) }; (println x)` - the hypotheses hold for a
+    concrete module and entry state, and the theorem yields a VM run that ends after the 55 bytes of code
+    having written "7\n" -/
+example : ∃ n s', (∀ k, runLoop CompileEx2.m (n + k) s0 = runLoop CompileEx2.m k s') ∧ s'.ip = 55 ∧ s'.out = [55, 10] := by
+  obtain ⟨_, n, s', h1, h2, _, _, h5, _⟩ := compile_body_correct CompileEx2.m {} [] 1 body
+    (.letS _ _ _ _ _ (.num 5) (.stmt _ _ (.while _ _ (.strict .T_LT .LT _ _ rfl (.ident "x") (.num 7))
+      (fun st hst => by
+        have : st = .setS "x" (.prefixOp .T_PLUS [.ident "x", .num 1]) := by simpa using hst
+        subst this
+        exact .set _ _ (.strict .T_PLUS .ADD _ _ rfl (.ident "x") (.num 1))))
+      (.stmt _ _ (.print true _ (.ident "x")) .nil)))
+    {} cs1 CompileEx2.code 0 20 [] _ {} _ _ s0 _ [] bytes compiles encodes runs rfl at0 inv0 (by decide) (by decide)
+  exact ⟨n, s', h1, h2, h5⟩
+
+/-- **compile_main_correct** (whole program, VM back end).  Let the program be `fn main() { body }` where
+    `body` is made of `let` declarations and statements of the fragment and ends with `return e`; let
+    `compileProgram` produce the module `m` (below 2 GiB of code).  If the reference semantics runs the
+    program to a normal exit with output `out` and status `code`, then `execute m` - module flags, `__init__`
+    look-up, `vm_call_function`'s frame set-up, the dispatch loop decoding the generated bytes, `OP_RET` in the
+    outermost frame - ends with `VM_OK` for every sufficiently large instruction budget, has written exactly
+    `out`, and leaves on the stack the single value from which the drivers derive the exit status: an
+    integer congruent to `code` modulo 256, or a boolean with `code = 0`. -/
+theorem compile_main_correct (rt : Ty) (body : List Stmt) (hb : BodyR body) (m : Module)
+    (hc : compileProgram [.fn "main" [] rt body] = .ok m) (hsmall : m.code.length < 2147483648)
+    (fuel : Nat) (out : Bytes) (code : Nat)
+    (hs : Sem.runProgram Sem.vmCfg [.fn "main" [] rt body] (fuel + 2) = ⟨out, .exit code⟩) :
+    ∃ n sf v, (∀ k, execute m (n + 1 + k) = (sf, .done)) ∧ sf.out = out ∧ sf.stack = [v] ∧
+      ((∃ x : I64, v = .int x ∧ code = (x.toInt % 256).toNat) ∨ (∃ b : Bool, v = .bool b ∧ code = 0)) := by
+  rcases runProgram_main rt body fuel _ hs with ⟨f, g, _, ho⟩ | ⟨fl, loc, g, hex, ho⟩
+  · simp at ho
+  · obtain ⟨w, v, n, sf, rfl, hv, hrun, hout, hstk⟩ := main_program_sim rt body hb m hc hsmall (fuel + 1) fl loc g hex
+    simp only [Sem.Obs.mk.injEq] at ho
+    obtain ⟨ho1, ho2⟩ := ho
+    refine ⟨n, sf, v, hrun, by rw [hout, ho1], hstk, ?_⟩
+    cases hv with
+    | int x => left; exact ⟨x, rfl, by simpa using ho2⟩
+    | bool b => right; exact ⟨b, rfl, by simpa using ho2⟩
 
 end NanoVerif.C01
